@@ -116,6 +116,13 @@ PROPS = {
         "required_reach": {"quick": ["word-ok", "unknown-bit-raises", "reproduced", "from_code-raises"]},
         "shards": {"quick": 16, "thorough": 16},
     },
+    "C10": {
+        "level": "model_checking",
+        "interpreters": PRODUCERS,
+        "rule": "abstract line programs = sequences (length <=2; thorough also length 3 over reduced alphabets) of steps (bytecode delta in {2,4,252,254,256,258,508,510,512,764,1020} (+0 for lnotab), line delta in {0,+-1,+-127,+-128,+-129,+-254,255,-256,-257,381,-384} (thorough: also +-126,+-253,-255,+256) | no-line (3.10)), x tail {trailing entry, 2, 300 bytes} for lnotab, emitted through executable models of CPython's assemblers (assemble_lnotab 3.7/3.8/3.9 variants, 3.10 assemble_line_range) into real code objects; plus programs whose statements carry chosen line numbers and bytecode lengths compiled by the real compiler (AST route); plus every table of the program grammar (thorough: and of the stdlib). states = distinct (table, code length, first line) triples judged; transitions = codec stage applications; traces_validated_against_impl = model traces whose table CPython's own reader (PyCode_Addr2Line) read back exactly as the line program says + compile()-realizable programs where the model's bytes equal the real assembler's table.",
+        "assumptions": TRUST + ["the 3.10 continuation rule for no-line runs longer than 254 bytes ((254,-128) chunks) cannot be produced by compile(); it is bound to CPython by read-back through PyCode_Addr2Line only"],
+        "required_reach": {"quick": ["table:no-line-long@3.10", "table:no-line@3.10", "table:split-bytes", "table:split-line", "table:zero-width", "table:backward", "table:zero-delta-entry@3.7,3.8", "model-conforms-to-compile", "table-ok:model", "table-ok:real"]},
+    },
 }
 
 BASE_NOTE = (
@@ -159,6 +166,13 @@ MANIFEST_TEXT = {
         "design_ref": "DESIGN.md section 4 C11",
         "note": BASE_NOTE,
         "technique": "exhaustive enumeration of flag words (2^18) and deviation-bounded header alterations; raise-or-reproduce oracle",
+    },
+    "C10": {
+        "text": "Model checking with conformance: executable models of CPython's line-table assemblers enumerate every abstract line program up to the bound; every model trace is replayed against CPython (its reader must read the program back; where compile() can realize the program the model's bytes must equal the real assembler's) and against the implementation (decode == CPython's reading at every offset, re-encode == table byte for byte).",
+        "design_ref": "DESIGN.md section 4 C10, section 3 R-ASM",
+        "note": BASE_NOTE,
+        "technique": "explicit enumeration of assembler-model traces up to a length bound, each replayed against CPython's reader/assembler and the implementation",
+        "engine": "explore",
     },
     "C13": {
         "text": "Same exhaustive space; the block partition is compared with the jump-target set computed from CPython's reading: no empty block, exact starts, every later block targeted.",
